@@ -14,7 +14,7 @@ REAL = ['py4hw.logic.arithmetic / bitwise shift blocks', 'py4hw simulator']
 STUB = ['stimulus']
 ASSUMPTIONS = ['oracle = integer operation reduced modulo 2**(output width), two\'s complement for signed variants; '
                'division/modulo only for non-zero divisors; rotation amounts up to the data width; Neg/Abs at equal widths']
-PROBES = ['output_toggled', 'settled_by_clk0', 'block_added_after_simulator', 'constant_reassigned'] + ['kind_' + k.name for k in kinds_with(tag='c07')]
+PROBES = ['output_toggled', 'settled_by_clk0', 'block_added_after_simulator', 'constant_reassigned', 'stimuli_from_listener'] + ['kind_' + k.name for k in kinds_with(tag='c07')]
 gen = bc.make_gen('c07')
 run = bc.run
 shrink = bc.shrink
